@@ -162,8 +162,15 @@ class ArrayAppendFault(AH.ArrayHistory):
             fault['nth'] = rng.randint(0, max(0, n - 1))
             fault['where'] = rng.choice(['zero', 'one', 'mid_elem', 'mid_row', 'end-1', 'all'])
             fault['frac'] = rng.random()
-        ops.append({'op': 'faultappend', 'call': call, 'as': rng.choice(['list', 'generator']),
-                    'chunks': chunks, 'fault': fault})
+        fop = {'op': 'faultappend', 'call': call, 'as': rng.choice(['list', 'generator']),
+               'chunks': chunks, 'fault': fault}
+        ops.append(fop)
+        # drawn last, so that the scenarios of earlier seeds are unchanged up to this key
+        if rng.random() < 0.2:
+            # the failing call happens inside a `with a.open_array():` block in which an ordinary append has
+            # already succeeded (the shared map then still has the length it had when the block was entered)
+            fop['ctx'] = {'pre': [self.gen_data(rng, rows=rng.choice([1, 1, 2, 3]), other_dtype_p=0.0)
+                                  for _ in range(rng.choice([1, 1, 2]))]}
         return {'engine': type(self).__name__, 'prop': self.prop, 'ops': ops}
 
     def simplify(self, sc):
@@ -281,6 +288,26 @@ class _FState(AH._State):
         m = self.model
         f = op['fault']
         kind = f['kind']
+        cm = None
+        if op.get('ctx'):
+            # the statement quantifies over every failing append; one made inside an open_array() block after
+            # a successful append in the same block is one of them.  Only the failing call and what is on disk /
+            # seen once the block has been left are judged (reads *inside* the block are no subject of C09).
+            cm = self.h.open_array()
+            cm.__enter__()
+            for d in op['ctx']['pre']:
+                obj, _ = D.build(dict(d, form='ndarray'), trail=m.shape[1:], target_dtype=m.dtype)
+                e = self.model_cast(obj)
+                if e is None:
+                    cm.__exit__(None, None, None)
+                    raise HarnessError('pre chunk not castable')
+                try:
+                    self.h.append(obj)
+                except Exception as e2:     # noqa  - a completed append is C03's clause, not this check's
+                    cm.__exit__(None, None, None)
+                    raise AH.Diverged(f'append inside open_array raised {type(e2).__name__}')
+                self.model = m = np.concatenate([m, e]).astype(m.dtype, copy=False)
+            self.probe('fault_inside_open_array_after_append')
         objs, exps = self.build_chunks(op)
         n = len(objs)
         datafile = os.path.join(self.path, 'arrayvalues.bin')
@@ -336,6 +363,8 @@ class _FState(AH._State):
                 if limit < max(others + [0]) + 2048:
                     self.probe('discarded_limit_below_text_files')
                     self.log('faultappend', 'discarded')
+                    if cm is not None:
+                        cm.__exit__(None, None, None)
                     return
                 expect_j = n
                 for jj in range(n):
@@ -382,6 +411,9 @@ class _FState(AH._State):
                 call()
         except (Exception, _Interrupt) as e:   # noqa
             exc = e
+        finally:
+            if cm is not None:
+                cm.__exit__(None, None, None)
         if plan is not None:
             if plan.engaged == 0:
                 self.probe('seam_unavailable')
